@@ -414,6 +414,19 @@ def c13(run, replay=None):
                 run.known("K15-long-loop-overflows-stack", "")
             else:
                 run.violation("a script of %d tasks did not complete: %s rc=%r in %.1fs" % (n, o["kind"], o["rc"], o["secs"]), dict(tasks=n, observed=o))
+    # many options GIVEN (stacked short flags, repeated) beside a repeated positional: the time must not grow with 2^(options given)
+    fdoc = "#!/usr/bin/env rash\n#\n# Usage: prog [options] <file>...\n#\n# Options:\n#   -v  v\n#   -q  q\n#   -f  f\n#   -x  x\n#\n"
+    for n in (6, 12, 18, 26):
+        argv = ["-" + ("vqfx" * 7)[:n], "a", "b"]
+        t0 = time.time()
+        try:
+            subprocess.run([C.VH, "docopt"], input=json.dumps(dict(file=fdoc, args=argv)) + "\n", capture_output=True, text=True, timeout=20)
+            secs = time.time() - t0
+        except subprocess.TimeoutExpired:
+            secs = 20.0
+        ramps["stacked_flags_%d" % n] = round(secs, 2)
+        if secs > 3.0:
+            run.violation("`prog [options] <file>...` with %d stacked flags and two files needs %.1fs to parse" % (n, secs), dict(usage=fdoc, argv=argv, secs=secs))
     # K50: a file that includes ITSELF twice with ignore_errors: the depth limit (32) ends every branch, but there are 2^32 of them
     s = "#!/usr/bin/env rash\n- include: \"{{ rash.path }}\"\n  ignore_errors: true\n- include: \"{{ rash.path }}\"\n  ignore_errors: true\n"
     o = run_script(root, s, timeout=8)
